@@ -63,6 +63,17 @@ def ops_for(n):
         out.append(('indexOf', (v,)))
     out.append(('zip', (g.lst(g.c(7), g.c(8)),)))
     out.append(('zip', (g.lst(),)))
+    out.append(('zipLongest', (g.lst(g.c(7)),)))
+    out.append(('zipLongest', (g.lst(g.c(7), g.c(8), g.c(9), g.c(6)),)))
+    out.append(('defaultIfEmpty', (g.lst(g.c(5)),)))
+    out.append(('repeat', (g.c(2),)))
+    out.append(('repeat', (g.c(0),)))
+    for p in PREDS:
+        out.append(('filter', (p,)))
+        out.append(('assert', (g.bn('>', g.mcall(X, 'len'), g.c(1)),)))
+    for b in BINS:
+        out.append(('reduce', (b,)))
+        out.append(('reduce', (b, g.c(10))))
     out.append(('concat', (g.lst(g.c(7)), g.lst())))
     out.append(('join', (g.lst(g.c(1), g.c(2), g.c(1)), g.bn('=', g.var('1'), g.var('2')), g.lst(g.var('1'), g.var('2')))))
     out.append(('join', (g.lst(g.c(0), g.c(1)), g.c(True), g.bn('+', g.var('1'), g.var('2')))))
@@ -157,6 +168,8 @@ def run(rep, tier, seed, keep=False):
             ops = ops_for(len(inp))
             for (f, args) in ops:
                 for fname, conv in forms:
+                    if f == 'repeat' and fname == 'iterator':
+                        continue        # repeating a one-shot iterator object repeats the same object: no list meaning
                     add(g.mcall(X, f, *args), inp, conv, fname)
             for s in (SELS[:3] if None not in inp else []):       # (secondary selectors are applied lazily, only on ties)
                 for (tf, ts) in THEN:
@@ -186,6 +199,15 @@ def run(rep, tier, seed, keep=False):
         for fn in (g.call('range', g.c(3)), g.call('range', g.c(1), g.c(4)), g.call('range', g.c(5), g.c(1), g.c(-2)), g.call('list', g.c(1), g.lst(g.c(2))),
                    g.call('dict', g.lst(g.lst(g.c('a'), g.c(1)), g.lst(g.c('b'), g.c(2)))), g.call('dict', a=g.c(1), b=g.lst()), g.call('set', g.c(1), g.c(1), g.c(2)),
                    g.bn('*', g.lst(g.c(1), g.c(2)), g.c(2)), g.bn('+', g.lst(g.c(1)), g.lst(g.c(2))), g.bn('in', g.c(1), g.lst(g.c(1))),
+                   g.call('isIterable', X), g.call('isBoolean', X), g.call('examine', g.bn('>', g.mcall(X, 'len'), g.c(1)), g.c(True), g.c(None)),
+                   g.call('selectAllCases', g.bn('>', g.mcall(X, 'len'), g.c(1)), g.c(True), g.c(1)),
+                   g.call('generate', g.c(0), g.bn('<', X, g.c(3)), g.bn('+', X, g.c(1))),
+                   g.call('generate', g.c(0), g.bn('<', X, g.c(6)), g.bn('+', X, g.c(2)), g.bn('*', X, g.c(10))),
+                   g.call('generate', g.mcall(X, 'len'), g.bn('<', X, g.c(4)), g.bn('+', X, g.c(1))),
+                   g.call('generateMany', g.c(1), g.mcall(g.lst(g.bn('+', X, g.c(1)), g.bn('+', X, g.c(2))), 'where', g.bn('<', X, g.c(4)))),
+                   g.call('generateMany', g.c(1), g.mcall(g.lst(g.bn('+', X, g.c(1)), g.bn('+', X, g.c(2))), 'where', g.bn('<', X, g.c(5))), depthFirst=g.c(True)),
+                   g.call('generateMany', g.c(1), g.mcall(g.lst(g.bn('+', X, g.c(1)), g.bn('+', X, g.c(2))), 'where', g.bn('<', X, g.c(5))), decycle=g.c(True)),
+                   g.call('generateMany', g.c(1), g.mcall(g.lst(g.bn('+', X, g.c(1))), 'where', g.bn('<', X, g.c(4))), g.bn('*', X, g.c(10))),
                    g.call('len', X), g.call('distinct', X), g.call('enumerate', X), g.call('isList', X), g.call('isDict', X), g.call('any', X)):
             for inp in INPUTS[:6]:
                 add(fn, inp)
